@@ -12,7 +12,7 @@ use vcommon::*;
 use vcore::exec::{self, End, Log, Outcome};
 use vcore::fastc::{with_fastc, CompileFail};
 
-pub const BATCH: usize = 24;
+pub const BATCH: usize = 32;
 pub type Words = [u16; 10];
 
 pub fn batch_strategy() -> impl Strategy<Value = Vec<Words>> {
@@ -395,6 +395,88 @@ pub fn ccp_program(items: &[(usize, &Expr)]) -> (String, Vec<u8>) {
     (format!("script;\nfn main({}) {{\n{body}}}\n", params.join(", ")), data)
 }
 
+
+// ---------------------------------------------------------------------------------------------
+// did the fold happen? arithmetic / comparison instructions left in the O1 IR of the F program, compared with the same
+// program in which every expression is replaced by the literal of its run-time value
+
+fn literal_of(e: &Expr, r: &[u8]) -> Option<String> {
+    let rt = e.rtype();
+    let num = |t: &str, b: &[u8]| -> Option<String> {
+        let v = BigUint::from_bytes_be(b);
+        Some(match t {
+            "u8" => T::U8.lit(&v),
+            "u16" => T::U16.lit(&v),
+            "u32" => T::U32.lit(&v),
+            "u64" => T::U64.lit(&v),
+            "u256" => T::U256.lit(&v),
+            "b256" => T::B256.lit(&v),
+            "bool" => (if v.is_zero() { "false" } else { "true" }).to_string(),
+            _ => return None,
+        })
+    };
+    if let Some(inner) = rt.strip_prefix("Option<").and_then(|x| x.strip_suffix('>')) {
+        if r.len() < 8 {
+            return None;
+        }
+        return if r[..8] == 0u64.to_be_bytes() { Some("None".into()) } else { num(inner, &r[8..]).map(|x| format!("Some({x})")) };
+    }
+    num(&rt, r)
+}
+
+fn o1_op_count(src: &str) -> Option<usize> {
+    use sway_ir::{create_o1_pass_group, register_known_passes, InstOp, PassManager};
+    let r = crate::watch::watched(src, || {
+        with_fastc(400, |fc| {
+            catch(|| {
+                fc.with_ir(src, |ir, _, _| {
+                    let mut pm = PassManager::default();
+                    register_known_passes(&mut pm);
+                    let g = create_o1_pass_group();
+                    if pm.run(ir, &g, &Default::default()).is_err() {
+                        return (None, false);
+                    }
+                    let mut n = 0usize;
+                    for m in ir.module_iter() {
+                        for f in m.function_iter(ir) {
+                            for (_, v) in f.instruction_iter(ir) {
+                                if let Some(i) = v.get_instruction(ir) {
+                                    if matches!(i.op, InstOp::BinaryOp { .. } | InstOp::UnaryOp { .. } | InstOp::Cmp(..)) {
+                                        n += 1;
+                                    }
+                                }
+                            }
+                        }
+                    }
+                    (Some(n), false)
+                })
+            })
+        })
+    });
+    match r {
+        Ok(Ok((n, _))) => n,
+        Ok(Err(_)) => None,
+        Err(_) => {
+            vcore::fastc::forget_thread_fastc();
+            None
+        }
+    }
+}
+
+/// Some(true) = the O1 IR of the program with the expressions has exactly as many arithmetic / comparison instructions as
+/// the program with the literal results (everything was folded)
+fn fold_happened(items: &[(usize, &Expr, Vec<u8>)]) -> Option<bool> {
+    let plain: Vec<(usize, &Expr)> = items.iter().map(|(i, e, _)| (*i, *e)).collect();
+    let src = f_program(&plain);
+    let mut body = String::new();
+    for (_, e, r) in items {
+        let lit = literal_of(e, r)?;
+        let _ = writeln!(body, "    log({lit});");
+    }
+    let baseline = format!("script;\nfn main() {{\n{body}}}\n");
+    Some(o1_op_count(&src)? == o1_op_count(&baseline)?)
+}
+
 // ---------------------------------------------------------------------------------------------
 
 pub enum Built {
@@ -452,6 +534,35 @@ pub struct BatchStats {
     pub compiles: usize,
 }
 
+/// indices i of the declarations `C{i}` / `A{i}` / `kf{i}` named by the source lines quoted in the diagnostics
+fn declined_indices(f: &CompileFail) -> Vec<usize> {
+    let mut out = vec![];
+    for e in &f.errors {
+        let Some(pos) = e.find(" @ line ") else { continue };
+        let Some(q) = e[pos..].find('`') else { continue };
+        let line = &e[pos + q + 1..];
+        let bytes = line.as_bytes();
+        let mut k = 0;
+        while k < bytes.len() {
+            let rest = &line[k..];
+            let id_start = k == 0 || !(bytes[k - 1].is_ascii_alphanumeric() || bytes[k - 1] == b'_');
+            let skip = if rest.starts_with("kf") { 2 } else if rest.starts_with('C') || rest.starts_with('A') { 1 } else { 0 };
+            if id_start && skip > 0 {
+                let digits: String = rest[skip..].chars().take_while(|c| c.is_ascii_digit()).collect();
+                let after = rest[skip + digits.len()..].chars().next();
+                if !digits.is_empty() && matches!(after, Some(':') | Some('(') | Some(' ')) {
+                    if let Ok(i) = digits.parse() {
+                        out.push(i);
+                    }
+                    break;
+                }
+            }
+            k += 1;
+        }
+    }
+    out
+}
+
 /// K route on a set of expressions that return at run time: every logged constant equals the run-time value; a compile
 /// error is isolated by bisection and accepted as "declined" for single expressions.
 fn k_check(items: &[(usize, &Expr, Vec<u8>)], rep: &Report, st: &mut BatchStats) -> Result<(), Fail> {
@@ -492,12 +603,23 @@ fn k_check(items: &[(usize, &Expr, Vec<u8>)], rep: &Report, st: &mut BatchStats)
             k_check(r, rep, st)
         }
         Built::Declined(f) => {
-            if items.len() == 1 {
-                let e = items[0].1;
+            let mut declined = |e: &Expr| {
                 st.k_declined += 1;
-                rep.class(&format!("K:declined:{}:{}:{:?}", e.t.name(), e.op.name(), e.k));
-                let _ = f;
+                rep.class(&format!("K:declined:{}:{}", e.t.name(), e.op.name()));
+                rep.class(&format!("K:declined:form:{:?}", e.k));
+            };
+            if items.len() == 1 {
+                declined(items[0].1);
                 return Ok(());
+            }
+            // the diagnostics name the declarations that could not be evaluated: drop exactly those and check the others again
+            let named = declined_indices(&f);
+            let (out, keep): (Vec<_>, Vec<_>) = items.iter().cloned().partition(|(i, _, _)| named.contains(i));
+            if !out.is_empty() {
+                for (_, e, _) in &out {
+                    declined(e);
+                }
+                return k_check(&keep, rep, st);
             }
             let (l, r) = items.split_at(items.len() / 2);
             k_check(l, rep, st)?;
@@ -644,6 +766,7 @@ pub fn excluded(_e: &Expr) -> Option<&'static str> {
 }
 
 pub fn eval_batch(batch: &[Words], rep: &Report) -> Result<BatchStats, Fail> {
+    let check_fold = batch.first().map(|w| w[7] % 3 == 0).unwrap_or(false);
     let mut st = BatchStats::default();
     let exprs: Vec<Expr> = batch.iter().map(gen_expr).collect();
     let mut ok: Vec<(usize, &Expr, Vec<u8>)> = vec![];
@@ -678,10 +801,22 @@ pub fn eval_batch(batch: &[Words], rep: &Report) -> Result<BatchStats, Fail> {
     k_check(&ok, rep, &mut st)?;
     let (ccp, plain): (Vec<_>, Vec<_>) = ok.iter().cloned().partition(|(_, e, _)| e.f == FForm::Ccp && !e.op.is_unary());
     f_check(&plain, rep, &mut st)?;
+    if check_fold && !plain.is_empty() {
+        // evidence that the optimizer really folds: one expression of the batch, measured alone
+        let one = &plain[idx(batch[0][6], plain.len())];
+        let e = one.1;
+        let kind = if e.op.is_shift() { "shift" } else if e.op.is_cmp() { "cmp" } else if matches!(e.op, Op::Conv(_)) { "conv" } else if matches!(e.op, Op::And | Op::Or | Op::Xor | Op::Not) { "bitwise" } else { "arith" };
+        let width = if e.t.bits() < 64 { "narrow" } else if e.t.bits() == 64 { "u64" } else { "256-bit" };
+        match fold_happened(std::slice::from_ref(one)) {
+            Some(true) => rep.class(&format!("F:O1-IR:{kind}:{width}:folded")),
+            Some(false) => rep.class(&format!("F:O1-IR:{kind}:{width}:instruction-left")),
+            None => rep.class("F:O1-IR:not-measured"),
+        }
+    }
     for chunk in ccp.chunks(8) {
         ccp_check(chunk, rep, &mut st)?;
     }
-    for (i, e, why) in aborting.iter().take(3) {
+    for (i, e, why) in aborting.iter().take(2) {
         abort_check(*i, e, why, rep, &mut st)?;
     }
     Ok(st)
@@ -695,7 +830,7 @@ pub fn run(ctx: &Ctx) {
     let ctx = &ctx;
     let rep = Report::new(
         ctx,
-        "proptest batch of <=24 expressions (type in u8 u16 u32 u64 u256 b256; operator in + - * / % & | ^ << >> ! == != < > <= >= and the std conversions as_uN / try_as_uN / as_u256 / as_b256; \
+        "proptest batch of <=32 expressions (type in u8 u16 u32 u64 u256 b256; operator in + - * / % & | ^ << >> ! == != < > <= >= and the std conversions as_uN / try_as_uN / as_u256 / as_b256; \
          operands from the boundary pool 0,1,2,max,max-1,2^k,2^k+-1,max-2^k, operator-aware neighbours of the overflow / underflow / division-by-zero boundary, random values; shift amounts around the width, 63..65, 255..257, 2^32, u64::MAX); \
          three routes: (R) the operator applied to run-time operands (operator-table script, operands as script data) is the reference; (K) the same expression as `const` / `configurable` initializer \
          (plain, via a helper function, inside tuple / struct / array / enum aggregates, referencing another const, in a block) read back by logging; (F) the same expression on literals in a function body \
@@ -705,10 +840,10 @@ pub fn run(ctx: &Ctx) {
     rep.assume("run-time reference = FuelVM execution of the O0 build of an operator-table script whose operands arrive as script data; a Rust big-integer model is a third voter used for classification only");
     rep.assume("programs are compiled in process through sway_core::{compile_to_ast, ast_to_asm, asm_to_bytecode} with a pre-compiled std namespace (the path forc takes per package)");
     rep.assume("a compile-time evaluation that ends in an ordinary compile error ('Could not evaluate initializer to a const declaration') counts as declined, which the property allows");
-    rep.assume("at most 3 run-time-aborting expressions per batch are compiled singly (cost); all returning expressions are checked");
+    rep.assume("at most 2 run-time-aborting expressions per batch are compiled singly (cost); all returning expressions are checked");
     rep.assume("a compilation that does not terminate within 120 s ends the check as inconclusive (exit 2), not as a violation");
     crate::watch::spawn_watchdog("C06", 120);
-    let cases = ctx.cases(700, 14_000);
+    let cases = ctx.cases(250, 5_000);
     let explore = std::env::var("C06_EXPLORE").is_ok();
     let out = run_prop(ctx, 6, cases, batch_strategy, |batch| match eval_batch(batch, &rep) {
         Ok(st) => {
